@@ -1761,6 +1761,8 @@ class Interp:
     def e_Call(self, node, cfg, out):
         res = []
         fname = dotted(node.func)
+        if fname is None and isinstance(node.func, ast.Attribute) and isinstance(node.func.value, ast.Subscript) and dotted(node.func.value.value):
+            fname = ast.unparse(node.func)  # method of a container element: `cmd[1].cancel`
         for c, fval in self.ev(node.func, cfg, out):
             for c1, args in self.ev_list(node.args, c, out):
                 cur = [(c1, {})]
